@@ -56,7 +56,19 @@ def gen_program(rng, sw):
     else:
         nf = rng.randint(3, 8)
         nm = rng.randint(2, min(5, nf))
-    for i in range(nf):
+    # non-exported, overloaded helper families: part of PI like any other function, so a
+    # partition may put the overloads of one family into different modules
+    SIGS = [[["x", "int"]], [["x", "float"]], [["x", "int"], ["y", "int"]], [["x", "int"], ["y", "float"]]]
+    nh = 0
+    if shape == "random" and sw.get("free_helpers"):
+        for fam in range(rng.randint(1, 2)):
+            for sig in rng.sample(SIGS, rng.randint(1, 3)):
+                funcs.append({"name": f"w{fam}", "export": False, "params": [list(p) for p in sig],
+                              "ret": sig[0][1], "k": rng.randint(1, 9)})
+        nh = len(funcs)
+        nf += nh
+        nm = min(5, max(nm, 2))
+    for i in range(nh, nf):
         np_ = rng.choice([1, 1, 2, 2, 3])
         params = [["a", "int"]]
         if np_ >= 2:
@@ -66,7 +78,7 @@ def gen_program(rng, sw):
         if rng.random() < 0.12:
             params = [["b", "float"]]
         ret = rng.choice(["int", "int", "float"])
-        funcs.append({"name": f"f{i}", "export": True, "params": params, "ret": ret, "k": rng.randint(1, 9)})
+        funcs.append({"name": f"f{i - nh}", "export": True, "params": params, "ret": ret, "k": rng.randint(1, 9)})
     # call graph
     for i, f in enumerate(funcs):
         if shape == "chain":
@@ -77,6 +89,8 @@ def gen_program(rng, sw):
             callees = [0] if i > 0 else []
             if i > 1 and rng.random() < 0.3:
                 callees.append(rng.randrange(1, i))
+        elif not f["export"]:
+            callees = []
         else:
             callees = [j for j in range(i) if rng.random() < sw["call_density"]]
         f["calls"] = []
@@ -116,6 +130,7 @@ def gen_scenario(seed, tier="quick"):
         "suffix_names": swr.random() < 0.1,
         "links": swr.choice([1, 2, 2, 3]),
         "helpers": swr.random() < 0.4,
+        "free_helpers": swr.random() < 0.3,
     }
     prng = core.sub_rng(seed, "c16.prog")
     funcs, nm = gen_program(prng, sw)
@@ -132,7 +147,7 @@ def gen_scenario(seed, tier="quick"):
     # templates
     for i, f in enumerate(funcs):
         m = f["mod"]
-        tm = prng.choice(TEMPLATES)
+        tm = prng.choice(TEMPLATES) if f["export"] else "expr"
         own = [g for g in globs if g["mod"] == m]
         lower = [g for g in globs if g["mod"] < m]
         f["glob"] = None
@@ -213,7 +228,7 @@ def gen_scenario(seed, tier="quick"):
             extra = [m for m in range(nm) if m not in roots and rng.random() < (0.12 if li == 0 else 0.05)]
             add = roots + extra
             rng.shuffle(add)
-            loader = rng.choice(["fs", "fs", "mem", "memfile"])
+            loader = rng.choice(["fs", "fs", "mem", "memfile", "default"])
             via = "inproc"
             if sw["cli"] and len(roots) == 1 and not extra and rng.random() < 0.6:
                 via = "nslr"
@@ -248,7 +263,7 @@ def gen_scenario(seed, tier="quick"):
     hrng = core.sub_rng(seed, "c16.hist")
     hist = []
     for _ in range(hrng.randint(4, 12)):
-        i = hrng.randrange(len(funcs))
+        i = hrng.choice([j for j, x in enumerate(funcs) if x["export"]])
         f = funcs[i]
         args = {}
         for n, t in f["params"]:
@@ -290,6 +305,8 @@ def _value_expr(sc, f, k):
     if f["ret"] == "int":
         ints = [n for n, t in f["params"] if t == "int"]
         e = f"({ints[0]} + {k})" if ints else str(k)
+        if not f.get("export", True) and len(ints) > 1:
+            e = f"(({ints[0]} - {ints[1]}) + {k})"
         for c in f["calls"]:
             g = funcs[c["f"]]
             if g["ret"] == "int":
@@ -318,7 +335,7 @@ def func_src(sc, i, dk=0, variant=0):
     f = sc["funcs"][i]
     k = f["k"] + dk + variant
     params = ", ".join(f"{t} {n}" for n, t in f["params"])
-    head = f"export function {f['name']}({params}) -> {f['ret']} {{\n"
+    head = f"{'export ' if f.get('export', True) else ''}function {f['name']}({params}) -> {f['ret']} {{\n"
     val = _value_expr(sc, f, k)
     side = _side_calls(sc, f)
     tm = f.get("tmpl", "expr")
@@ -485,4 +502,9 @@ def well_formed(sc):
     for m in range(nm):
         if not any(f["mod"] == m for f in funcs):
             return False
+    sigs = [(f["name"], tuple(t for _n, t in f["params"])) for f in funcs]
+    if len(set(sigs)) != len(sigs):
+        return False
+    if not any(f.get("export", True) for f in funcs):
+        return False
     return True
